@@ -185,10 +185,26 @@ Lemma jitter_uses_range sleep jitter gate : 0 <= jitter_uses sleep jitter gate <
 Proof. unfold jitter_uses. split_ifs; lia. Qed.
 
 (* ------------------------------------------------------------------ kill date *)
+Definition after_work (c : kcfg) (now : Z) : Z :=
+  match eff_work c with Some w => work_loop 16 w now | None => now end.
+
+Lemma wait_step_spec rc c dl now cl :
+  wait_step rc c dl now cl =
+  if cl then (now, true)
+  else if kill_passed c (after_work c now) then (after_work c now, true)
+  else if k_sleep c <? 1 then (after_work c now, false)
+  else if rc && kill_passed c (after_work c now + dl) then (after_work c now + dl, true)
+  else (after_work c now + dl, false).
+Proof. reflexivity. Qed.
+
 Lemma wait_not_closing_not_after_kill c dl now cl now' :
   wait_step true c dl now cl = (now', false) -> kill_passed c now' = false.
 Proof.
-  unfold wait_step. cbn [andb]. intros H. split_ifs; inversion H; subst; try congruence.
+  rewrite wait_step_spec. cbn [andb]. generalize (after_work c now). intros n1 H.
+  destruct cl; [discriminate|].
+  destruct (kill_passed c n1) eqn:K1; [discriminate|].
+  destruct (k_sleep c <? 1); [inversion H; subst; exact K1|].
+  destruct (kill_passed c (n1 + dl)) eqn:K2; inversion H; subst; exact K2.
 Qed.
 
 Lemma listen_exchange_not_after_kill c script :
@@ -360,14 +376,21 @@ Proof.
   destruct (empty w'); [discriminate|]. intros H E. inversion E; subst. exact H.
 Qed.
 
+Lemma after_work_mono c now : cfg_ok c -> now <= after_work c now.
+Proof.
+  intros Hc. unfold after_work. destruct (eff_work c) as [w|] eqn:Ew; [|lia].
+  apply work_loop_mono. exact (eff_work_ok c w Hc Ew).
+Qed.
+
 Lemma wait_step_mono rc c dl now cl now' cl' :
   cfg_ok c -> 0 <= dl -> wait_step rc c dl now cl = (now', cl') -> now <= now'.
 Proof.
-  intros Hc Hdl. unfold wait_step.
-  destruct (eff_work c) as [w|] eqn:Ew.
-  - pose proof (work_loop_mono 16 w now (eff_work_ok c w Hc Ew)) as Hwl.
-    intros W. split_ifs; inversion W; subst; lia.
-  - intros W. split_ifs; inversion W; subst; lia.
+  intros Hc Hdl. rewrite wait_step_spec. pose proof (after_work_mono c now Hc) as Hm.
+  revert Hm. generalize (after_work c now). intros n1 Hm H.
+  destruct cl; [inversion H; lia|].
+  destruct (kill_passed c n1); [inversion H; lia|].
+  destruct (k_sleep c <? 1); [inversion H; lia|].
+  destruct (rc && kill_passed c (n1 + dl)); inversion H; lia.
 Qed.
 
 (* old code: once the date has passed at the top of a pass, that pass is the notice *)
@@ -386,12 +409,9 @@ Proof.
   { rewrite count_after_kill_cons. change (count_after_kill c []) with 0. cbn [fst].
     destruct (kill_passed c now1); lia. }
   assert (Hnp : kill_passed c now = true -> False).
-  { intros Hk. revert W. unfold wait_step. cbn [andb].
-    destruct cl; [intros W; inversion W|].
-    destruct (eff_work c) as [w|] eqn:Ew.
-    - pose proof (work_loop_mono 16 w now (eff_work_ok c w Hc Ew)) as Hwl.
-      rewrite (kill_passed_mono c now (work_loop 16 w now) Hwl Hk). intros W; inversion W.
-    - rewrite Hk. intros W; inversion W. }
+  { intros Hk. revert W. rewrite wait_step_spec. cbn [andb].
+    pose proof (kill_passed_mono c now (after_work c now) (after_work_mono c now Hc) Hk) as Hk1.
+    destruct cl; [intros W; inversion W|]. rewrite Hk1. intros W; inversion W. }
   assert (Hrest : forall cl2 er2,
              (if kill_passed c now1 then 1 else 0) + count_after_kill c (listen false c rest (now1 + i_dur it) cl2 er2) <= 2 /\
              (kill_passed c now = true ->
@@ -418,4 +438,161 @@ Proof.
   destruct (i_fail it); rewrite ?count_after_kill_cons; cbn [fst]; rewrite I.
   - cbn. lia.
   - destruct (old_listen_after_kill c rest Hc Hs' (t + i_dur it) false 0) as (_ & B). lia.
+Qed.
+
+(* ---- termination of the work-hours loop of wait() *)
+Lemma work_at_split w q ns : 0 <= ns < day_ns -> work_at w (q * day_ns + ns) = work w (q mod 7) ns.
+Proof.
+  intros H. unfold work_at.
+  replace ((q * day_ns + ns) / day_ns) with q by (unfold day_ns in *; lia).
+  replace ((q * day_ns + ns) mod day_ns) with ns by (unfold day_ns in *; lia).
+  reflexivity.
+Qed.
+
+(* the four outcomes of Work *)
+Lemma work_cases w wd ns :
+  rule_bytes w -> 0 <= ns < day_ns ->
+  work w wd ns = 0 \/
+  (day_off w wd = true /\ work w wd ns = day_ns - ns) \/
+  (day_off w wd = false /\ ns < start_ns w /\ work w wd ns = start_ns w - ns) \/
+  (day_off w wd = false /\ start_ns w <= ns /\ work w wd ns = start_ns w + day_ns - ns).
+Proof.
+  destruct w as [dy sh sm eh em]. work_unfold. cbn [r_days r_sh r_sm r_eh r_em].
+  intros (Hd & Hsh & Hsm & Heh & Hem) Hns.
+  destruct (Z.testbit dy wd) eqn:Tb; cbn [negb]; split_ifs; lia.
+Qed.
+
+Lemma work_at_start w wd :
+  rule_bytes w -> start_ns w < day_ns -> day_off w wd = false -> work w wd (start_ns w) = 0.
+Proof.
+  destruct w as [dy sh sm eh em]. work_unfold. cbn [r_days r_sh r_sm r_eh r_em].
+  intros (Hd & Hsh & Hsm & Heh & Hem) Hs.
+  destruct (Z.testbit dy wd) eqn:Tb; cbn [negb]; split_ifs; lia.
+Qed.
+
+Lemma start_ns_nonneg w : rule_bytes w -> 0 <= start_ns w.
+Proof.
+  destruct w as [dy sh sm eh em]. work_unfold. cbn [r_days r_sh r_sm r_eh r_em].
+  intros (Hd & Hsh & Hsm & Heh & Hem). split_ifs; lia.
+Qed.
+
+Definition settled (w : rule) (now : Z) : Prop := work_at w now = 0.
+
+Lemma loop_done f w now : settled w now -> work_loop f w now = now.
+Proof. unfold settled. intros H. destruct f; cbn [work_loop]; [reflexivity|]. rewrite H. reflexivity. Qed.
+
+Lemma loop_step f w now :
+  0 < work_at w now -> work_loop (S f) w now = work_loop f w (now + work_at w now).
+Proof. intros H. cbn [work_loop]. replace (0 <? work_at w now) with true by lia. reflexivity. Qed.
+
+(* some weekday is enabled *)
+Lemma some_day_on w : rule_bytes w ->
+  exists j, 0 <= j < 7 /\ day_off w j = false.
+Proof.
+  intros (Hd & _). unfold day_off.
+  destruct (Z.eq_dec (r_days w) 0) as [E|N]; [exists 0; split; [lia|]; rewrite E; reflexivity|].
+  destruct (Z_lt_dec (r_days w) 127) as [L|G]; [|exists 0; split; [lia|]; replace (r_days w <? 127) with false by lia; rewrite andb_false_r; reflexivity].
+  assert (H : forallb (fun d => existsb (fun j => Z.testbit d j) [0;1;2;3;4;5;6]) (map Z.of_nat (seq 1 126)) = true) by (vm_compute; reflexivity).
+  rewrite forallb_forall in H.
+  assert (Hin : In (r_days w) (map Z.of_nat (seq 1 126))).
+  { unfold is_b in Hd. replace (r_days w) with (Z.of_nat (Z.to_nat (r_days w))) by lia.
+    apply in_map, in_seq. lia. }
+  specialize (H _ Hin). apply existsb_exists in H. destruct H as (j & Hj & Tj).
+  exists j. split; [cbn in Hj; lia|]. rewrite Tj. cbn [negb]. apply andb_false_r.
+Qed.
+
+(* from a midnight: at most k day hops, then at most one wait for the start *)
+Lemma settle_from_midnight w : rule_bytes w -> start_ns w < day_ns ->
+  forall k q, (exists j, 0 <= j < Z.of_nat k /\ day_off w ((q + j) mod 7) = false) ->
+  settled w (work_loop (k + 1) w (q * day_ns)).
+Proof.
+  intros Hb Hs. pose proof (start_ns_nonneg w Hb) as Hs0.
+  induction k as [|k IH]; intros q (j & Hj & Hon); [lia|].
+  assert (Hmid : work_at w (q * day_ns) = work w (q mod 7) 0).
+  { rewrite <- (work_at_split w q 0) by (unfold day_ns; lia). f_equal. lia. }
+  destruct (day_off w (q mod 7)) eqn:Off.
+  - (* hop to the next midnight *)
+    destruct (work_cases w (q mod 7) 0 Hb ltac:(unfold day_ns; lia)) as [Z0 | [(_ & W) | [(F & _) | (F & _)]]]; try congruence.
+    + rewrite loop_done; unfold settled; rewrite Hmid; exact Z0.
+    + replace (S k + 1)%nat with (S (k + 1)) by lia.
+      rewrite loop_step by (rewrite Hmid, W; unfold day_ns; lia).
+      rewrite Hmid, W. replace (q * day_ns + (day_ns - 0)) with ((q + 1) * day_ns) by lia.
+      apply IH. destruct (Z.eq_dec j 0) as [-> | Nz].
+      * replace (q + 0) with q in Hon by lia. congruence.
+      * exists (j - 1). split; [lia|]. replace (q + 1 + (j - 1)) with (q + j) by lia. exact Hon.
+  - (* the day is enabled: go, or wait for the start *)
+    destruct (work_cases w (q mod 7) 0 Hb ltac:(unfold day_ns; lia)) as [Z0 | [(T & _) | [(_ & Lt & W) | (_ & Ge & W)]]]; try congruence.
+    + rewrite loop_done; unfold settled; rewrite Hmid; exact Z0.
+    + replace (S k + 1)%nat with (S (k + 1)) by lia.
+      rewrite loop_step by (rewrite Hmid, W; lia).
+      rewrite Hmid, W. replace (start_ns w - 0) with (start_ns w) by lia.
+      assert (St : settled w (q * day_ns + start_ns w)).
+      { unfold settled. rewrite work_at_split by lia. apply work_at_start; assumption. }
+      rewrite loop_done; exact St.
+    + assert (start_ns w = 0) by lia.
+      rewrite loop_done; unfold settled; rewrite Hmid; rewrite <- H at 1; apply work_at_start; assumption.
+Qed.
+
+Lemma week_has_day_on w q : rule_bytes w -> exists j, 0 <= j < 7 /\ day_off w ((q + j) mod 7) = false.
+Proof.
+  intros Hb. destruct (some_day_on w Hb) as (d & Hd & Hon).
+  exists ((d - q) mod 7). split; [lia|].
+  replace ((q + (d - q) mod 7) mod 7) with d by lia. exact Hon.
+Qed.
+
+Lemma loop_more_fuel w f : forall now m,
+  settled w (work_loop f w now) -> work_loop (f + m) w now = work_loop f w now.
+Proof.
+  induction f as [|f IH]; intros now m H.
+  - cbn [work_loop Nat.add] in *. apply loop_done. exact H.
+  - cbn [Nat.add work_loop] in *. destruct (0 <? work_at w now); [apply IH; exact H | reflexivity].
+Qed.
+
+Lemma settled_more_fuel w f g now :
+  (f <= g)%nat -> settled w (work_loop f w now) -> settled w (work_loop g w now).
+Proof.
+  intros L H. replace g with (f + (g - f))%nat by lia. rewrite loop_more_fuel; exact H.
+Qed.
+
+(* the loop of wait() ends within 10 passes for every rule that can work at all
+   (start before 24:00), from any instant *)
+Lemma work_loop_settles w now :
+  rule_bytes w -> start_ns w < day_ns -> settled w (work_loop 16 w now).
+Proof.
+  intros Hb Hs. pose proof (start_ns_nonneg w Hb) as Hs0.
+  set (q := now / day_ns). set (ns := now mod day_ns).
+  assert (Hns : 0 <= ns < day_ns) by (unfold ns, day_ns; lia).
+  assert (En : now = q * day_ns + ns) by (unfold q, ns, day_ns; lia).
+  assert (M : forall q', settled w (work_loop 8 w (q' * day_ns))).
+  { intros q'. apply (settle_from_midnight w Hb Hs 7 q'). apply week_has_day_on. exact Hb. }
+  assert (Hw : work_at w now = work w (q mod 7) ns) by (rewrite En; apply work_at_split; exact Hns).
+  destruct (work_cases w (q mod 7) ns Hb Hns) as [Z0 | [(_ & W) | [(Fo & Lt & W) | (Fo & Ge & W)]]].
+  - rewrite loop_done; unfold settled; rewrite Hw; exact Z0.
+  - (* day off: next midnight *)
+    change 16%nat with (S 15). rewrite loop_step by (rewrite Hw, W; lia).
+    rewrite Hw, W. replace (now + (day_ns - ns)) with ((q + 1) * day_ns) by lia.
+    apply (settled_more_fuel w 8 15); [lia | apply M].
+  - (* before the start: the start of today *)
+    change 16%nat with (S 15). rewrite loop_step by (rewrite Hw, W; lia).
+    rewrite Hw, W. replace (now + (start_ns w - ns)) with (q * day_ns + start_ns w) by lia.
+    rewrite loop_done; unfold settled; rewrite work_at_split by lia; apply work_at_start; assumption.
+  - (* after the end: the start of tomorrow, then possibly the midnight after *)
+    change 16%nat with (S 15). rewrite loop_step by (rewrite Hw, W; lia).
+    rewrite Hw, W. replace (now + (start_ns w + day_ns - ns)) with ((q + 1) * day_ns + start_ns w) by lia.
+    assert (Hw2 : work_at w ((q + 1) * day_ns + start_ns w) = work w ((q + 1) mod 7) (start_ns w))
+      by (apply work_at_split; lia).
+    destruct (day_off w ((q + 1) mod 7)) eqn:Off2.
+    + destruct (work_cases w ((q + 1) mod 7) (start_ns w) Hb ltac:(lia)) as [Z0 | [(_ & W2) | [(F & _) | (F & _)]]]; try congruence.
+      * rewrite loop_done; unfold settled; rewrite Hw2; exact Z0.
+      * change 15%nat with (S 14). rewrite loop_step by (rewrite Hw2, W2; lia).
+        rewrite Hw2, W2.
+        replace ((q + 1) * day_ns + start_ns w + (day_ns - start_ns w)) with ((q + 2) * day_ns) by lia.
+        apply (settled_more_fuel w 8 14); [lia | apply M].
+    + rewrite loop_done; unfold settled; rewrite Hw2; apply work_at_start; assumption.
+Qed.
+
+Lemma start_before_24h w : rule_bytes w -> start_ns w < day_ns \/ (r_sh w = 23 /\ r_sm w = 60).
+Proof.
+  destruct w as [dy sh sm eh em]. work_unfold. cbn [r_days r_sh r_sm r_eh r_em].
+  intros (Hd & Hsh & Hsm & Heh & Hem). split_ifs; lia.
 Qed.
